@@ -190,7 +190,7 @@ def gen_deep(r: random.Random, profile: str = "deep") -> Dict[str, Any]:
     cfg = base_config(1, n_agents, [tick], [p0])
     cfg["SA"]["assetVolume"] = 10 ** 7
     cfg["SA"]["cashAmount"] = 10 ** 12
-    n_ops = r.choice([600, 1200, 2500])
+    n_ops = r.choice([600, 1200, 2500, 2500, 6000]) if r.random() < 0.9 else 600
     spread = r.choice([20, 60, 200])
     bigvol = r.random() < 0.3
     p_tick = r.choice([0.05, 0.15, 0.3])
@@ -201,7 +201,34 @@ def gen_deep(r: random.Random, profile: str = "deep") -> Dict[str, Any]:
     base = round(p0 / tick)
     ops: List[Dict[str, Any]] = []
     outage = 0
-    for _ in range(n_ops):
+    mass_at = set(r.sample(range(n_ops), r.choice([0, 1, 2, 3])))
+    for _i in range(n_ops):
+        if _i in mass_at:
+            # mass expiry: dozens of orders of one side (some of both) accepted in one step with one ttl, the clock
+            # passes their expiry in one tick, then a multi-level round follows before anything else repairs the book
+            side = r.choice("bs")
+            n_burst = r.choice([20, 33, 40, 70, 130, 300])
+            ttl = r.choice([1, 2, 5])
+            for j in range(n_burst):
+                lv = r.randint(0, max(2, spread // 2))
+                sd = side if r.random() < 0.85 else ("s" if side == "b" else "b")
+                px = (base - lv) * tick if sd == "b" else (base + lv) * tick
+                ops.append({"k": "add", "a": r.randrange(n_agents), "m": 0, "side": sd, "kind": "limit",
+                            "px": float(max(tick, px)), "vol": r.randint(1, 5), "ttl": ttl})
+            keep = r.randint(0, 6)
+            for j in range(keep):  # orders that stay behind the expiring ones
+                lv = r.randint(0, max(2, spread // 2))
+                px = (base - lv) * tick if side == "b" else (base + lv) * tick
+                ops.append({"k": "add", "a": r.randrange(n_agents), "m": 0, "side": side, "kind": "limit",
+                            "px": float(max(tick, px)), "vol": r.randint(1, 5)})
+            ops.append({"k": "tick", "n": ttl + 1})
+            opp = "s" if side == "b" else "b"
+            ops.append({"k": "add", "a": r.randrange(n_agents), "m": 0, "side": opp, "kind": r.choice(["limit", "market"]),
+                        "vol": r.randint(3, 30), "cont": True,
+                        **({"px": float(max(tick, (base + (-spread if opp == "s" else spread)) * tick))})})
+            if ops[-1]["kind"] == "market":
+                del ops[-1]["px"]
+            continue
         u = r.random()
         if outage > 0:
             outage -= 1
